@@ -139,7 +139,27 @@ EvadeGen(p) ==
                                           \o (IF b = -1 THEN <<>> ELSE << <<bkind, b>> >>)), "w", {})
 EvadeOK(p) == ValidPosition(p) /\ \A z \in Sq : p.b[z] \in {"P", "p"} => RankOf(z) \in 1..6
 
+(* ---- promomate: a white pawn on the seventh rank that can capture a black piece on the eighth, the black king a
+   knight's move from the capture square with (nearly) all its neighbours blocked by its own men, an optional white
+   helper piece: the positions in which a promotion - in particular an under-promotion by capture - mates. *)
+PromoMateGen(p) ==
+    LET f == PromoFile
+        helper == Variant                                     \* "Q", "R", "B", "N" or "." (none)
+    IN \E t \in { At(g, 7) : g \in { g \in {f - 1, f + 1} : g \in 0..7 } }, x \in {"r", "b", "n", "q"} :
+       \E bk \in { z \in KnightT[t] : RankOf(z) >= 5 }, wk \in {0, 7} :
+       \E holes \in { H \in SUBSET (KingT[bk] \ {t, At(f, 6)}) : Cardinality(H) <= 2 },
+          h \in (IF helper = "." THEN {-1} ELSE { z \in Sq : InSlice(z) }) :
+          LET blockers == { z \in KingT[bk] \ ({t, At(f, 6)} \cup holes) : TRUE }
+              bseq == SortedSeq(blockers)
+              men == << <<"P", At(f, 6)>>, <<x, t>>, <<"k", bk>>, <<"K", wk>> >>
+                     \o [i \in 1..Len(bseq) |-> <<IF RankOf(bseq[i]) = 7 THEN "n" ELSE "p", bseq[i]>>]
+                     \o (IF h = -1 THEN <<>> ELSE << <<helper, h>> >>)
+          IN /\ Distinct([i \in 1..Len(men) |-> men[i][2]])
+             /\ p = Mk0(PlaceAll(EmptyBoard, men), "w", {})
+PromoMateOK(p) == ValidPosition(p) /\ p.b[At(PromoFile, 6)] = "P"
+
 Gen(p) == CASE Family = "ep" -> EpGen(p) /\ EpRootOK(p)
+            [] Family = "promomate" -> PromoMateGen(p) /\ PromoMateOK(p)
             [] Family = "evade" -> EvadeGen(p) /\ EvadeOK(p)
             [] Family = "castle" -> CastleGen(p) /\ CastleOK(p)
             [] Family = "promo" -> PromoGen(p) /\ PromoOK(p)
@@ -173,4 +193,13 @@ EmitCaptureMates == (CaptureMates(pos) # {}) =>
                     LET mm == MateMoves(pos) IN
                     PrintT(<<"SPOS", ToJson([fen |-> ToFEN(pos), mirror |-> ToFEN(Mirror(pos)),
                                              mates |-> SortedSeq(Codes(mm)), nopromo |-> NoPromoAtRoot])>>)
+\* only positions in which the mover is in check, has at most two legal moves and one of them mates (a forced
+\* move is a natural place for a shortcut in a search: "nothing to choose, play it")
+EmitForcedMates == (InCheck(pos) /\ Cardinality(Legal(pos)) <= 2 /\ MateMoves(pos) # {}) =>
+                   PrintT(<<"SPOS", ToJson([fen |-> ToFEN(pos), mirror |-> ToFEN(Mirror(pos)),
+                                            mates |-> SortedSeq(Codes(MateMoves(pos))), nopromo |-> NoPromoAtRoot])>>)
+\* only positions in which an under-promotion mates and the queen promotion on the same squares does not
+EmitUnderPromoMates == (\E m \in MateMoves(pos) : m.promo \in {"N", "B", "R"} /\ M(m.from, m.to, "Q") \notin MateMoves(pos)) =>
+                   PrintT(<<"SPOS", ToJson([fen |-> ToFEN(pos), mirror |-> ToFEN(Mirror(pos)),
+                                            mates |-> SortedSeq(Codes(MateMoves(pos))), nopromo |-> NoPromoAtRoot])>>)
 =============================================================================
